@@ -89,6 +89,10 @@ func genLocks(repo string) (string, error) {
 	// enclosing function, with the mutexes held there
 	var closureAccesses []access
 	var mapParams map[string]bool
+	// readsUnderLock: calls that consume a caller-supplied io.Reader parameter (io.ReadAll(r), io.Copy(_, r),
+	// r.Read(…)) made with a mutex held: the caller's reader may block, or call back into the registry
+	var readsUnderLock []access
+	var readerParams map[string]bool
 	returnsLit := map[string]bool{}      // "file:func" returns a function literal
 	returnedCalls := map[string][]string{} // exported method "file:func" -> names of functions whose result it returns
 	funcKey := map[string]string{}         // bare function name -> "file:func"
@@ -139,6 +143,22 @@ func genLocks(repo string) (string, error) {
 					if mapParams[x.Name] {
 						closureAccesses = append(closureAccesses, access{fn, "param:" + x.Name, "r", append([]string{}, held...)})
 					}
+				}
+			}
+			if c, ok := n.(*ast.CallExpr); ok && len(held) > 0 {
+				uses := false
+				for _, a := range c.Args {
+					if id, ok := a.(*ast.Ident); ok && readerParams[id.Name] {
+						uses = true
+					}
+				}
+				if sel, ok := c.Fun.(*ast.SelectorExpr); ok {
+					if id, ok := sel.X.(*ast.Ident); ok && readerParams[id.Name] {
+						uses = true
+					}
+				}
+				if uses {
+					readsUnderLock = append(readsUnderLock, access{fn, exprString(c.Fun), "r", append([]string{}, held...)})
 				}
 			}
 			switch x := n.(type) {
@@ -200,8 +220,14 @@ func genLocks(repo string) (string, error) {
 			held := locksAtEntry(fd.Body)
 			fn := strings.TrimSuffix(names[i], ".go") + ":" + fd.Name.Name
 			mapParams = map[string]bool{}
+			readerParams = map[string]bool{}
 			if fd.Type.Params != nil {
 				for _, fl := range fd.Type.Params.List {
+					if exprString(fl.Type) == "io.Reader" {
+						for _, nm := range fl.Names {
+							readerParams[nm.Name] = true
+						}
+					}
 					if _, isMap := fl.Type.(*ast.MapType); isMap {
 						for _, nm := range fl.Names {
 							mapParams[nm.Name] = true
@@ -344,6 +370,16 @@ func genLocks(repo string) (string, error) {
 		}
 	}
 	sort.Strings(leaks)
+	b.WriteString("/-- calls that consume a caller-supplied io.Reader with a mutex held: (function, callee, \"r\", mutexes held) -/\n")
+	b.WriteString("def readsCallerReaderUnderLock : List (String × String × String × List String) := [\n")
+	for i, a := range readsUnderLock {
+		sep := ","
+		if i == len(readsUnderLock)-1 {
+			sep = ""
+		}
+		fmt.Fprintf(&b, "  (%s, %s, %s, %s)%s\n", leanStr(a.fn), leanStr(a.field), leanStr(a.kind), leanStrList(a.locks), sep)
+	}
+	b.WriteString("]\n\n")
 	b.WriteString("/-- exported methods that return to their caller a function that reads the registry's maps lazily, outside the registry mutex -/\n")
 	fmt.Fprintf(&b, "def lazyStateLeaks : List String := %s\n", leanStrList(dedupStrings(leaks)))
 	b.WriteString("\nend OciModel.Generated.Locks\n")
